@@ -196,10 +196,17 @@ func ParseFindingLine(line string) (Finding, error) {
 	return f, nil
 }
 
+// unmasked is the key of the finding whose witness is being replayed: its
+// oracle-level exclusion is switched off for that run.
+var unmasked string
+
 // IsKnown reports whether key is listed with status "known" (for any
 // property: a root cause listed under one property is excluded from the
 // generators of the others too).
 func IsKnown(key string) bool {
+	if key == unmasked {
+		return false
+	}
 	for _, f := range r.findings {
 		if f.Key == key && f.Status == "known" {
 			return true
@@ -505,7 +512,9 @@ func KnownFindings(t *testing.T) {
 			continue
 		}
 		Eval()
+		unmasked = f.Key
 		err := sc.run(f.Witness)
+		unmasked = ""
 		ks := KnownStatus{Key: f.Key, Status: f.Status, What: f.What, Fails: err != nil}
 		if err != nil {
 			ks.Msg = err.Error()
@@ -552,4 +561,24 @@ func EnvInt(name string, def int) int {
 		}
 	}
 	return def
+}
+
+// FuzzFail writes a failing case found by a native fuzz target as a replay
+// file into VERIF_FUZZ_FAILDIR (the fuzz worker is a separate process).
+func FuzzFail(sub string, c any, err error) {
+	dir := os.Getenv("VERIF_FUZZ_FAILDIR")
+	if dir == "" {
+		return
+	}
+	raw, merr := json.Marshal(c)
+	if merr != nil {
+		return
+	}
+	known := ""
+	if sc := subs[sub]; sc != nil {
+		known = classify(sc, raw)
+	}
+	b, _ := json.Marshal(Failure{Sub: sub, Case: raw, Message: err.Error(), Origin: "fuzz", Known: known})
+	name := fmt.Sprintf("%016x.json", Hash(c))
+	os.WriteFile(filepath.Join(dir, name), b, 0644)
 }
